@@ -21,6 +21,7 @@ ND={'pushBack':'nd_pushBack _ {s} {h}','pushFront':'nd_pushFront _ {s} {h}','try
  'clear':'nd_clear_{mode} {s} {h} {hx}','get?':'nd_get _ {s} {h}','front?':'nd_front {s} {h}','back?':'nd_back {s} {h}',
  'nthBack?':'nd_nthBack _ {s} {h}','remove':'nd_remove _ {s} {h}','makeContiguous':'nd_makeContiguous {s} {h}',
  'dropRange':'nd_dropRange_{mode} _ _ {s} {h} {hx} h1 h2 h3'}
+LIVE={'pushBack','pushFront','tryPushBack','tryPushFront','popBack','popFront','swap','swapRemoveBack','swapRemoveFront','remove'}
 WANT={'C01':['C01_push_back','C01_push_front','C01_try_push_back','C01_try_push_front','C01_pop_back','C01_pop_front','C01_swap','C01_swap_remove_back','C01_swap_remove_front','C01_truncate_back','C01_truncate_front','C01_clear','C01_remove','C01_make_contiguous'],
  'C02':['C02_push_back','C02_push_front','C02_try_push_back','C02_try_push_front'],
  'C07':['C07_get','C07_front','C07_back','C07_nth_back','C07_make_contiguous'],
@@ -112,6 +113,18 @@ for pid,names in WANT.items():
         for D in ("RefinesL","Refines","Frames"):
             if re.search(r"\b%s\b"%D, stmt2):
                 alts.append(f"  | (have h0 := {n} {args}; unfold {D} at h0 ⊢; rw [{rw}]; exact h0)")
+        # the weak ties (equal up to the dead slots, `Lemmas/Tie/Live.lean`) carry the statements that speak of
+        # the state through `Inv` and `abs` only
+        lties=[r.replace('tie_','ltie_',1) for r in rws]
+        if len(used)==1 and used[0] in LIVE and all(sv in inv for sv in sys_vars):
+            if re.match(r"\s*Refines \(?Gen\.", stmt2):
+                alts.append(f"  | (exact Refines.of_liveEq ({lties[0]}) ({n} {args}))"); groups.add('Live')
+            elif n in ('C02_push_back','C02_push_front'):
+                alts.append(f"  | (exact LiveEq.ex4 ({lties[0]}) ({n} {args}))"); groups.add('Live')
+            elif pid=='C04' and len(lties)==2:
+                alts.append(f"  | (exact LiveEq.ex2 ({lties[0]}) ({lties[1]}) ({n} {args}))"); groups.add('Live')
+        if os.environ.get("ONLY_WEAK") and any("ltie_" in a for a in alts):
+            alts=[a for a in alts if "ltie_" in a]      # self-test of the weak alternatives
         out.append(f"maybe theorem {n}_src{binders.rstrip()} :{stmt2.rstrip()} := by\n  first\n"+"\n".join(alts))
     imports="".join(f"import CircBuf.Lemmas.Tie.{g}\n" for g in sorted(groups))
     os.makedirs(P+'Src',exist_ok=True)
